@@ -297,11 +297,18 @@ Proof.
   intros Hj. destruct (Nat.eq_dec i j) as [<-|Hne]; [rewrite get_p_upd_same by exact Hj|rewrite get_p_upd_other by exact Hne]; reflexivity.
 Qed.
 
+(* what an accepted action does to the acted flags: the actor is added (no wager increase), or the actor
+   alone remains (he is the new raiser), or all flags are cleared (short all-in) *)
+Definition Shape (g g' : gstate) (i : nat) : Prop :=
+  (forall j, actedf g' j = if Nat.eqb j i then true else actedf g j) \/
+  (forall j, actedf g' j = Nat.eqb j i) \/
+  (forall j, actedf g' j = false).
+
 (* every accepted action: bookkeeping that yields Pre, then "ask the next seat" *)
 Lemma act_pre g i a x :
   Good g -> Lap g -> snd (act_of g i a x) = Ok ->
   exists g', fst (act_of g i a x) = request_action g' /\ st_event (g_st g') = EvRoundStarted /\
-             st_cur (g_st g') = i /\ (i < nplayers g')%nat /\ nplayers g' = nplayers g /\ Pre g' i.
+             st_cur (g_st g') = i /\ (i < nplayers g')%nat /\ nplayers g' = nplayers g /\ Pre g' i /\ Shape g g' i.
 Proof.
   intros [HI HO HK P _] HLap Hok.
   assert (Ctx : forall b, allowed g i b = true ->
@@ -320,12 +327,13 @@ Proof.
             forall b, allowed g i b = true ->
             (p_fold (f (get_p g i)) = true \/ p_stack (get_p g i) = 0 \/ p_wager (get_p g i) = st_cw (g_st g)) ->
             exists g', resume (set_last (upd_p g i f) (zn i) t v) = request_action g' /\ st_event (g_st g') = EvRoundStarted /\
-                       st_cur (g_st g') = i /\ (i < nplayers g')%nat /\ nplayers g' = nplayers g /\ Pre g' i).
+                       st_cur (g_st g') = i /\ (i < nplayers g')%nat /\ nplayers g' = nplayers g /\ Pre g' i /\ Shape g g' i).
   { intros f t v Hf Ha b Hb Hm. destruct (Ctx b Hb) as (Ei & Ev & Hi & Hact & _ & _ & _ & HL).
     exists (set_last (upd_p g i f) (zn i) t v).
     assert (E' : st_event (g_st (set_last (upd_p g i f) (zn i) t v)) = EvRoundStarted) by exact Ev.
     assert (Hn : nplayers (set_last (upd_p g i f) (zn i) t v) = nplayers g) by (unfold set_last; rewrite nplayers_with_st; apply nplayers_upd).
     split; [unfold resume; rewrite E'; reflexivity|]. split; [exact E'|]. split; [symmetry; exact Ei|]. split; [rewrite Hn; exact Hi|]. split; [exact Hn|].
+    split; [|left; intros j; change (actedf (set_last (upd_p g i f) (zn i) t v) j) with (actedf (upd_p g i f) j); rewrite actedf_upd by exact Hi; rewrite Ha; reflexivity].
     apply (Pre_ext (upd_p g i f)); [reflexivity|reflexivity|].
     refine (pre_quiet g _ i _ HL _ _ _ _ _).
     - apply nplayers_upd.
@@ -342,7 +350,7 @@ Proof.
             0 <= st_prs (g_st (F (upd_p g i (fun p => p_set_acted (p_set_did p d) true)))) -> 0 <= chips ->
             (chips < p_stack (get_p g i) -> p_wager (get_p g i) + chips <= st_cw (g_st g) -> p_wager (get_p g i) + chips = st_cw (g_st g)) ->
             exists g', resume (set_last (G (pay (F (upd_p g i (fun p => p_set_acted (p_set_did p d) true))) i chips true)) (zn i) t v) = request_action g' /\
-                       st_event (g_st g') = EvRoundStarted /\ st_cur (g_st g') = i /\ (i < nplayers g')%nat /\ nplayers g' = nplayers g /\ Pre g' i).
+                       st_event (g_st g') = EvRoundStarted /\ st_cur (g_st g') = i /\ (i < nplayers g')%nat /\ nplayers g' = nplayers g /\ Pre g' i /\ Shape g g' i).
   { intros d F G chips t v b Hb HF HG Hprs Hch Hq. destruct (Ctx b Hb) as (Ei & Ev & Hi & Hact & Hseat & _ & _ & HL).
     set (g1 := upd_p g i (fun p => p_set_acted (p_set_did p d) true)) in *.
     set (b0 := F g1) in *. destruct (HF g1) as (F1 & F2 & F3 & F4).
@@ -366,9 +374,20 @@ Proof.
     split; [unfold resume; rewrite E'; reflexivity|]. split; [exact E'|].
     split; [cbn [set_last with_st g_st st_cur st_set_last]; rewrite G4; unfold g2; rewrite cur_pay; unfold b0; rewrite F4; symmetry; exact Ei|].
     split; [rewrite Hn; exact Hi|]. split; [exact Hn|].
-    apply (Pre_ext g2); [cbn [set_last with_st g_players]; exact G1|cbn [set_last with_st g_st st_cw st_set_last]; exact G2|exact HP]. }
+    split; [apply (Pre_ext g2); [cbn [set_last with_st g_players]; exact G1|cbn [set_last with_st g_st st_cw st_set_last]; exact G2|exact HP]|].
+    assert (Hfl : forall j, actedf (set_last (G g2) (zn i) t v) j = actedf g2 j).
+    { intros j. unfold actedf, get_p. cbn [set_last with_st g_players]. now rewrite G1. }
+    assert (Hfb : forall j, actedf b0 j = if Nat.eqb j i then true else actedf g j).
+    { intros j. unfold actedf. rewrite Hget0. fold (actedf g1 j). unfold g1. rewrite actedf_upd by exact Hi. reflexivity. }
+    assert (Hseatb : seat_ok (get_p b0 i)).
+    { eapply seat_ok_chips; [|exact Hseat]. rewrite Hget0. symmetry. apply upd_acted_chips'. exact Hi. }
+    destruct (pay_shapes b0 i chips ltac:(rewrite Hn0; exact Hi) Hseatb Hprs Hch) as [Sh _]. cbv zeta in Sh. fold g2 in Sh.
+    destruct Sh as [Q _ _|R _|Z0].
+    - left. intros j. rewrite Hfl, Q. apply Hfb.
+    - right. left. intros j. rewrite Hfl. apply R.
+    - right. right. intros j. rewrite Hfl. apply Z0. }
   assert (Hcall : snd (act_call g i) = Ok -> exists g', fst (act_call g i) = request_action g' /\ st_event (g_st g') = EvRoundStarted /\
-             st_cur (g_st g') = i /\ (i < nplayers g')%nat /\ nplayers g' = nplayers g /\ Pre g' i).
+             st_cur (g_st g') = i /\ (i < nplayers g')%nat /\ nplayers g' = nplayers g /\ Pre g' i /\ Shape g g' i).
   { unfold act_call. destruct (allowed g i ACall) eqn:Ha; [|discriminate]. cbn [negb fst snd]. intros _.
     destruct (Ctx ACall Ha) as (_ & _ & Hi & _ & _ & Hin & Hc & _).
     destruct (available_facts _ _ ACall Hin ltac:(discriminate)) as (_ & Hw & _). specialize (Hw eq_refl).
@@ -377,7 +396,7 @@ Proof.
     - destruct (st_cw (g_st g) <? m_bbb (g_meta g)) eqn:E; [apply Z.ltb_lt in E|]; lia.
     - intros _. destruct (st_cw (g_st g) <? m_bbb (g_meta g)) eqn:E; [apply Z.ltb_lt in E|]; lia. }
   assert (Hallin : snd (act_allin g i) = Ok -> exists g', fst (act_allin g i) = request_action g' /\ st_event (g_st g') = EvRoundStarted /\
-             st_cur (g_st g') = i /\ (i < nplayers g')%nat /\ nplayers g' = nplayers g /\ Pre g' i).
+             st_cur (g_st g') = i /\ (i < nplayers g')%nat /\ nplayers g' = nplayers g /\ Pre g' i /\ Shape g g' i).
   { unfold act_allin. destruct (allowed g i AAllin) eqn:Ha; [|discriminate]. cbn [negb fst snd]. intros _.
     destruct (Ctx AAllin Ha) as (_ & _ & Hi & _ & Hseat & _ & Hc & _).
     set (g1 := upd_p g i (fun p => p_set_acted (p_set_did p DAllin) true)).
@@ -518,7 +537,7 @@ Proof.
   - cbn [step] in *. destruct (negb _); [discriminate|].
     match type of Hok with snd ?r = Ok => change r with (act_of g (match who with Some i => i | None => st_cur (g_st g) end) a x) in * end.
     set (i := match who with Some i => i | None => st_cur (g_st g) end) in *.
-    destruct (act_pre g i a x HG HL Hok) as (g' & E & Ev & Hc & Hi & Hn & HP). rewrite E.
+    destruct (act_pre g i a x HG HL Hok) as (g' & E & Ev & Hc & Hi & Hn & HP & _). rewrite E.
     intros Ev'. apply (request_action_lap g' i Hc Hi HP Ev' Ev).
 Qed.
 
@@ -552,7 +571,7 @@ Proof.
   match type of Hs with ?r = _ => change r with (act_of g (match who with Some i => i | None => st_cur (g_st g) end) a x) in * end.
   set (i := match who with Some i => i | None => st_cur (g_st g) end) in *.
   assert (Hok : snd (act_of g i a x) = Ok) by (rewrite Hs; reflexivity).
-  destruct (act_pre g i a x HG HL Hok) as (g' & E & Ev & Hc & Hi & Hn & HP).
+  destruct (act_pre g i a x HG HL Hok) as (g' & E & Ev & Hc & Hi & Hn & HP & _).
   assert (Es : s' = request_action g') by (rewrite <- E, Hs; reflexivity).
   exists g'. split; [|split; [exact Hn|]].
   - rewrite Es in *. unfold request_action in *.
@@ -568,3 +587,99 @@ Qed.
 (* round_closed keeps chips, folds and the wager to match: the seats are still matched in the closed state *)
 Lemma matched_round_closed g j : (j < nplayers g)%nat -> matched g j -> matched (round_closed g) j.
 Proof. intros Hj. apply matched_view; [apply cv_round_closed|apply gv_round_closed; reflexivity|exact Hj]. Qed.
+
+(* ---------- within one lap ---------- *)
+(* counting the seats that have not acted *)
+Definition cnt (F : nat -> bool) (start len : nat) : nat := length (filter (fun j => negb (F j)) (seq start len)).
+
+Lemma cnt_ext F G start len : (forall j, (start <= j < start + len)%nat -> F j = G j) -> cnt F start len = cnt G start len.
+Proof.
+  unfold cnt. revert start. induction len as [|len IH]; intros start H; cbn [seq filter]; [reflexivity|].
+  rewrite (H start ltac:(lia)). destruct (negb (G start)); cbn [length]; rewrite (IH (S start)) by (intros j Hj; apply H; lia); reflexivity.
+Qed.
+
+Lemma cnt_false start len : cnt (fun _ => false) start len = len.
+Proof. unfold cnt. revert start. induction len as [|len IH]; intros start; cbn [seq filter negb length]; [reflexivity|]. now rewrite IH. Qed.
+
+Lemma cnt_le F start len : (cnt F start len <= len)%nat.
+Proof. unfold cnt. rewrite <- (seq_length len start) at 2. apply filter_len_le. Qed.
+
+Lemma cnt_set F i start len : (start <= i < start + len)%nat -> F i = false ->
+  S (cnt (fun j => if Nat.eqb j i then true else F j) start len) = cnt F start len.
+Proof.
+  unfold cnt. revert start. induction len as [|len IH]; intros start Hi HF; [lia|]. cbn [seq filter].
+  destruct (Nat.eqb start i) eqn:E.
+  - apply Nat.eqb_eq in E. subst i. rewrite HF. cbn [negb length]. f_equal.
+    fold (cnt (fun j => if Nat.eqb j start then true else F j) (S start) len). fold (cnt F (S start) len).
+    apply cnt_ext. intros j Hj. replace (Nat.eqb j start) with false by (symmetry; apply Nat.eqb_neq; lia). reflexivity.
+  - apply Nat.eqb_neq in E. destruct (negb (F start)); cbn [length]; rewrite <- (IH (S start)) by (try assumption; lia); reflexivity.
+Qed.
+
+Lemma cnt_single i start len : (start <= i < start + len)%nat -> S (cnt (fun j => Nat.eqb j i) start len) = len.
+Proof.
+  intros Hi. rewrite <- (cnt_false start len) at 2. rewrite <- (cnt_set (fun _ => false) i start len Hi eq_refl).
+  f_equal. apply cnt_ext. intros j _. destruct (Nat.eqb j i); reflexivity.
+Qed.
+
+Lemma pending_cnt g : pending g = zn (cnt (actedf g) 0 (nplayers g)).
+Proof.
+  unfold pending, cnt, actedf, get_p, nplayers. f_equal.
+  assert (G : forall (l : list pstate) start,
+            length (filter (fun p => negb (p_acted p)) l) =
+            length (filter (fun j => negb (p_acted (nth (j - start) l dflt_p))) (seq start (length l)))).
+  { induction l as [|p t IH]; intros start; cbn [length seq filter]; [reflexivity|].
+    replace (start - start)%nat with 0%nat by lia. change (nth 0 (p :: t) dflt_p) with p.
+    assert (E : filter (fun j => negb (p_acted (nth (j - start) (p :: t) dflt_p))) (seq (S start) (length t))
+              = filter (fun j => negb (p_acted (nth (j - S start) t dflt_p))) (seq (S start) (length t))).
+    { apply filter_ext_in. intros j Hj. apply in_seq in Hj. replace (j - start)%nat with (S (j - S start)) by lia. reflexivity. }
+    destruct (negb (p_acted p)); cbn [length]; rewrite E, <- (IH (S start)); reflexivity. }
+  rewrite (G (g_players g) 0%nat). f_equal. apply filter_ext. intros j. now rewrite Nat.sub_0_r.
+Qed.
+
+(* an accepted action either adds the actor to the seats that have acted, or is a wager increase / all-in
+   that starts a new lap *)
+Theorem lap_progress g who a x s' :
+  Good g -> Lap g -> step g (OAct who a x) = (s', Ok) -> st_event (g_st s') = EvRoundStarted ->
+  pending s' = pending g - 1 \/ zn (nplayers g) - 1 <= pending s'.
+Proof.
+  intros HG HL Hs Ev'. pose proof HG as [HI HO HK P HR]. cbn [step] in Hs. destruct (negb _); [discriminate|].
+  match type of Hs with ?r = _ => change r with (act_of g (match who with Some i => i | None => st_cur (g_st g) end) a x) in * end.
+  set (i := match who with Some i => i | None => st_cur (g_st g) end) in *.
+  assert (Hok : snd (act_of g i a x) = Ok) by (rewrite Hs; reflexivity).
+  destruct (act_pre g i a x HG HL Hok) as (g' & E & Ev & Hc & Hi & Hn & _ & Sh).
+  assert (Es : s' = request_action g') by (rewrite <- E, Hs; reflexivity).
+  assert (Hp : pending s' = pending g').
+  { rewrite Es in *. unfold request_action in *.
+    destruct (Nat.eqb (alive_count g') 1); [simpl in Ev'; discriminate|]. destruct (Nat.eqb (movable_count g') 0); [simpl in Ev'; discriminate|].
+    destruct (p_acted _); [simpl in Ev'; discriminate|]. apply pending_set_current. }
+  rewrite Hp, !pending_cnt, Hn. rewrite Hn in Hi.
+  (* the actor had not acted *)
+  assert (Hfalse : actedf g i = false).
+  { assert (Evg : st_event (g_st g) = EvRoundStarted).
+    { destruct (st_event (g_st g)) eqn:Evg; try reflexivity; exfalso;
+        assert (Hno : no_offers g) by (apply (inv_offers g HI); rewrite Evg; discriminate);
+        unfold act_of in Hok; destruct a; cbn in Hok;
+        unfold act_pass, act_fold, act_check, act_call, act_allin, act_bet, act_raise, act_pay in Hok;
+        rewrite ?(allowed_nil g i _ (Hno i)) in Hok; cbn in Hok; discriminate. }
+    assert (Hcur : i = st_cur (g_st g)).
+    { destruct (Nat.eq_dec i (st_cur (g_st g))) as [H|H]; [exact H|]. exfalso.
+      pose proof (oi_only g HO i H) as Hnil.
+      unfold act_of in Hok; destruct a; cbn in Hok;
+        unfold act_pass, act_fold, act_check, act_call, act_allin, act_bet, act_raise, act_pay in Hok;
+        rewrite ?(allowed_nil g i _ Hnil) in Hok; cbn in Hok; discriminate. }
+    unfold actedf. rewrite Hcur. apply (pi_cur g P Evg). }
+  destruct Sh as [Q|[R|Z0]].
+  - left. rewrite (cnt_ext (actedf g') _ 0 (nplayers g) (fun j _ => Q j)).
+    pose proof (cnt_set (actedf g) i 0 (nplayers g) ltac:(lia) Hfalse). unfold zn. lia.
+  - right. rewrite (cnt_ext (actedf g') _ 0 (nplayers g) (fun j _ => R j)).
+    pose proof (cnt_single i 0 (nplayers g) ltac:(lia)). unfold zn. lia.
+  - right. rewrite (cnt_ext (actedf g') _ 0 (nplayers g) (fun j _ => Z0 j)), cnt_false. unfold zn. lia.
+Qed.
+
+(* in an open round at least one seat — the one to act — has not acted, and at most all of them *)
+Theorem open_round_pending g : Good g -> st_event (g_st g) = EvRoundStarted -> 1 <= pending g <= zn (nplayers g).
+Proof.
+  intros [HI HO HK P HR] Ev. split; [|apply pending_range].
+  rewrite pending_cnt. pose proof (pi_cur g P Ev) as Hc. pose proof (oi_range g HO) as Hr.
+  pose proof (cnt_set (actedf g) (st_cur (g_st g)) 0 (nplayers g) ltac:(lia) Hc). unfold zn. lia.
+Qed.
